@@ -481,10 +481,10 @@ fn check(prop: &str, tier: Tier, procs: u64) -> i32 {
     }
     if std::env::var("VERIF_PRESCREEN_MS").is_err() {
         // anything slower than the pre-screen's limit is replaced anyway: stop waiting shortly after
-        std::env::set_var("VERIF_PRESCREEN_MS", if tier == Tier::Quick { "500" } else { "1700" });
+        std::env::set_var("VERIF_PRESCREEN_MS", if tier == Tier::Quick { "500" } else { "900" });
     }
     if std::env::var("VERIF_PRESCREEN_SLOW_MS").is_err() {
-        std::env::set_var("VERIF_PRESCREEN_SLOW_MS", if tier == Tier::Quick { "400" } else { "1500" });
+        std::env::set_var("VERIF_PRESCREEN_SLOW_MS", if tier == Tier::Quick { "400" } else { "800" });
     }
     let children: Vec<_> = (0..procs)
         .map(|i| {
